@@ -33,6 +33,10 @@ CLAIMED = {
             "Static, schedule-independent: the code shapes that admit a lost wake-up, a lost last value or a duplicated value (inspect before enable, notify before flag, no re-take on the dropped edge, await reachable after a take that held a value, notified() hoisted out of the loop, weak orderings on the flags, Clone endpoints, slot reachable without the mutex) are each excluded on every path of merge_channel.rs. Liveness clauses are not decided.",
             "Trusts rustc MIR and tokio::sync::Notify's enable()/notify_one() permit semantics.",
             "DESIGN.md §3 C19"),
+    "C20": ("CFG cut rules on the publication gate of the pool refiller, store-before-use dominance, def-use provenance of the setup event, who-constructs census of the verified-name type",
+            "Static, schedule-independent: every path that pushes a connection into the published set leaves the keyspace test through `no keyspace set` or `keyspace equal`, the `different` outcome is routed through keyspace setup and re-enters the same gate carrying the keyspace it set; the keyspace is recorded before the fan-out snapshots are taken; fan-outs await join_all over all nodes/connections before replying; VerifiedKeyspaceName is only built after validation and is the only source of the USE statement text; the response name is checked. Races as such are not enumerated.",
+            "Trusts rustc MIR; role-based anchors on PoolRefiller / ClusterWorker / Connection::use_keyspace.",
+            "DESIGN.md §3 C20"),
 }
 
 NOT_APPLICABLE = {
